@@ -137,6 +137,14 @@ def simp(e):
     return z3.simplify(e)
 
 
+def canon(e):
+    """canonical (sum-of-monomials, sorted) form: equal polynomials written differently become one term"""
+    try:
+        return z3.simplify(e, som=True, sort_sums=True)
+    except z3.Z3Exception:
+        return z3.simplify(e)
+
+
 def is_const(e):
     return z3.is_rational_value(e) or z3.is_int_value(e)
 
@@ -236,7 +244,7 @@ class Ctx:
 
         One fresh variable per syntactically distinct (simplified) argument plus
         congruence constraints against all earlier applications."""
-        arg = simp(arg)
+        arg = canon(arg)       # equal polynomials written differently share one application
         key = (fname, arg.sexpr())
         if key in self.apps:
             return self.apps[key][1]
@@ -316,7 +324,8 @@ class SB:
 # transcendental functions: uninterpreted + minimal axiom instances
 
 def _exp_axioms(c, arg, v, earlier):
-    ax = [v > 0]
+    # positivity, comparison with exp(0) = 1 and the tangent bound exp(t) >= 1 + t
+    ax = [v > 0, z3.Implies(arg > 0, v > 1), z3.Implies(arg < 0, v < 1), z3.Implies(arg == 0, v == 1), v >= 1 + arg]
     if is_const(arg) and frac_of(arg) == 0:
         ax.append(v == 1)
     for (a2, v2) in earlier:
@@ -384,7 +393,7 @@ def _mono_axioms(lo=None, hi=None, at0=None):
 
 
 AXIOMS_DOC = [
-    "exp(t) > 0; exp(0) = 1; exp(t)*exp(-t) = 1 (instances with syntactically opposite arguments); exp strictly monotone (pairwise instances)",
+    "exp(t) > 0; exp(0) = 1; t > 0 => exp(t) > 1; t < 0 => exp(t) < 1; exp(t) >= 1 + t; exp(t)*exp(-t) = 1 (instances with syntactically opposite arguments); exp strictly monotone (pairwise instances)",
     "log(1) = 0; log strictly monotone on positive arguments (pairwise instances); log(exp(t)) = t and exp(log(t)) = t (t > 0 recorded as side condition) by construction",
     "-1 <= sin, cos <= 1; sin(t)^2 + cos(t)^2 = 1 for each argument t; sin(0)=0, cos(0)=1; parity sin(-t)=-sin t, cos(-t)=cos t (instances)",
     "arctan strictly monotone, |arctan| < pi/2 (pi a symbolic constant with 3.14159 < pi < 3.1416)",
@@ -409,7 +418,7 @@ def _split_exp(arg):
 
 def _exp_term(t):
     c = cur()
-    t = simp(t)
+    t = canon(t)
     # log/exp cancellation by construction
     inv = c.data.setdefault("log_of", {})  # var sexpr -> argument of log
     k = t.sexpr()
@@ -431,7 +440,7 @@ def _exp_term(t):
 
 def _log_term(t):
     c = cur()
-    t = simp(t)
+    t = canon(t)
     inv = c.data.setdefault("exp_of", {})
     k = t.sexpr()
     if k in inv:
@@ -446,7 +455,7 @@ def _log_term(t):
 
 def _sin_term(t):
     c = cur()
-    t = simp(t)
+    t = canon(t)
     s = c.app("sin", t, _sincos_axioms("cos"))
     key = ("sc", t.sexpr())
     if key not in c.data:
@@ -458,7 +467,7 @@ def _sin_term(t):
 
 def _cos_term(t):
     c = cur()
-    t = simp(t)
+    t = canon(t)
     co = c.app("cos", t, _sincos_axioms("sin"))
     key = ("sc", t.sexpr())
     if key not in c.data:
@@ -490,7 +499,7 @@ def _sqrt_term(t):
 
 def _uf_term(name, axioms=None):
     def f(t):
-        return cur().app(name, simp(t), axioms)
+        return cur().app(name, canon(t), axioms)
     return f
 
 
